@@ -949,9 +949,35 @@ def normalize_cases(ctx, rep, rnd, n):
     return terms, metas
 
 
+READBACK_VALUES = ["plain", "a,b", "a;b", "a\tb", "a|b", "a:b", 'q"q', "x y", "", "a, b; c", "1,2,3,4", ";;;;", 'alice, "the" admin',
+                   "l\nf", " lead", "trail ", "'q'", 'a "q" b', "\u00e9\U0001f600", "=1+1"]
+READBACK_OPTS = [{}, {"fields": "_source,s,u"}, {"fields": "_source,s"}, {"fields": "_generated,s,u"}, {"fields": "s,u"},
+                 {"fields": "u,n,s"}, {"exclude": "_source,_classification,_generated,_version"}, {"exclude": "s,u,n"},
+                 {"lineterminator": "\\n"}, {"fields": "s,u", "lineterminator": "\\n"}]
+
+
+def readback_files(rnd, n, workdir):
+    """outputs of CsvfileWriter whose cells hold every candidate delimiter (, ; TAB | :), both quote characters, spaces
+    and line feeds, with a reserved field / a quoted cell as first or last column: the reader must read them back"""
+    from flow.record import RecordDescriptor
+    D = RecordDescriptor("rb/rec", [("string", "s"), ("string", "u"), ("varint", "n")])
+    out = []
+    fixed = [({"fields": "s,u"}, [("z", "a,b")]), ({"fields": "_source,s"}, [("plain", "x"), ("a,b", "y")]),
+             ({}, [("plain", "'q'")]), ({"fields": "s,u", "lineterminator": "\\n"}, [("z", 'a "q" b')])]
+    plans = fixed + [(rnd.choice(READBACK_OPTS), [(rnd.choice(READBACK_VALUES), rnd.choice(READBACK_VALUES)) for _ in range(rnd.randint(1, 4))])
+                     for _ in range(n)]
+    for k, (o, rows) in enumerate(plans):
+        src = rnd.choice(["src", "a,b", None]) if k >= len(fixed) else "src"
+        recs = [D(s=a, u=b, n=i, _source=src, _generated=TS) for i, (a, b) in enumerate(rows)]
+        data, err, _ = run_writer("csvfile", os.path.join(workdir, "rb%d.csv" % k), recs, o)
+        if data is not None:
+            out.append(data)
+    return out
+
+
 def read_cases(ctx, rep, rnd, n, workdir, written):
-    """CSV files with unambiguous content (safe cells, sniffable delimiter) read back as records with the same text
-    values; `written` are outputs of CsvfileWriter with safe content."""
+    """CSV files read back as records with the same text values: hand-made files over 4 delimiters with safe cells, and
+    `written` = outputs of CsvfileWriter itself (safe content, and the hostile read-back battery of readback_files)."""
     from flow.record import RecordReader
     from flow.record.base import normalize_fieldname
     terms, metas = [], []
@@ -981,12 +1007,6 @@ def read_cases(ctx, rep, rnd, n, workdir, written):
         path = os.path.join(workdir, "r%d.csv" % i)
         with open(path, "w", newline="", encoding="utf-8") as f:
             f.write(text)
-        try:
-            dia = csv.Sniffer().sniff(text[:1024])
-            sd, sq, ssk, sdq = dia.delimiter, dia.quotechar, dia.skipinitialspace, dia.doublequote
-        except csv.Error:
-            sd = None
-        unambiguous = sd == d and sq == '"' and not ssk
         got, err = None, None
         try:
             kw = {"fields": fields} if fields is not None else {}
@@ -996,27 +1016,33 @@ def read_cases(ctx, rep, rnd, n, workdir, written):
             got = [[(k, getattr(r, k)) for k in r._desc.fields] for r in recs]
         except Exception as e:  # noqa
             err = "%s: %s" % (type(e).__name__, e)
-        ctx.count_case(("read", origin, d, text), nontrivial=unambiguous)
-        if not unambiguous:
-            continue
-        sniffed_ok += 1
-        # python oracle: the cells of every data row, under the normalised header names that do not start with "_"
+        # python oracle: the file read in the dialect it was WRITTEN in (delimiter d, '"' quoting with doubled quotes):
+        # the cells of every data row under the normalised header names that do not start with "_"
         allrows = [list(r) for r in csv.reader(io.StringIO(text, newline=""), delimiter=d)]
         hdr = fields.split(",") if fields is not None else allrows[0]
         body = allrows if fields is not None else allrows[1:]
-        meta = dict(kind="read", origin=origin, delimiter=d, fields=fields, text=text)
-        if err is not None:
-            rep.fail(dict(writer="reader", cls="raises"), "CsvfileReader raised %s on an unambiguous CSV file" % err, dict(error=err, **meta))
-            continue
-        cells_got = [[v for _, v in row] for row in got]
-        # columns whose normalised name starts with "_" (the reserved names) are internal, not record fields
         keep = [j for j, h in enumerate(hdr) if not normalize_fieldname(h).startswith("_")]
         cells_want = [[r[j] for j in keep] for r in body]
-        if cells_got != cells_want:
-            rep.fail(dict(writer="reader", cls="values-differ"),
-                     "CsvfileReader does not return the text values of an unambiguous CSV file (delimiter %r): got %r, expected %r" % (
-                         d, cells_got[:3], cells_want[:3]), dict(got=cells_got, want=cells_want, **meta))
+        cells_got = None if got is None else [[v for _, v in row] for row in got]
+        meta = dict(kind="read", origin=origin, delimiter=d, fields=fields, text=text, want=cells_want)
+        ok = err is None and cells_got == cells_want
+        ctx.count_case(("read", origin, d, text), nontrivial=True)
+        if not ok:
+            # does the dialect csv.Sniffer guesses from the first 1024 characters differ from the file's dialect?
+            try:
+                dia = csv.Sniffer().sniff(text[:1024])
+                sniffed = (dia.delimiter, dia.quotechar, bool(dia.doublequote), bool(dia.skipinitialspace))
+            except csv.Error as e:
+                sniffed = "csv.Error: %s" % e
+            true_dialect = (d, '"', True, False)
+            misread = sniffed != true_dialect
+            what = "CsvfileReader %s on a CSV file %s (delimiter %r; csv.Sniffer guesses %r): %r, expected the text values %r" % (
+                "raised " + err if err else "returns other values", "written by CsvfileWriter" if origin == "writer" else "with unambiguous content",
+                d, sniffed, None if cells_got is None else cells_got[:3], cells_want[:3])
+            rep.fail(dict(writer="reader", cls="sniffer-misreads-dialect" if misread else ("raises" if err else "values-differ")),
+                     what, dict(error=err, got=cells_got, sniffed=repr(sniffed), **meta))
             continue
+        sniffed_ok += 1
         impl = "(Some (%s, %s))" % (clist(ct(k) for k in names),
                                     clist(clist("(%s,%s)" % (ct(k), copt(v, ct)) for k, v in row) for row in got))
         terms.append("chk_read (g_reserved gen_cfg) gen_ncfg gen_isdecimal %d %s %s %s" % (ord(d), copt(fields, ct), ct(text), impl))
@@ -1062,6 +1088,16 @@ def replay_witnesses(ctx, kf, workdir):
     outs = [run_writer(sch, p("w5." + sch), [D(s="\ud800", n=1, _generated=TS)], {"format_spec": "{s}"} if sch == "text" else {})[2]
             for sch in ("csvfile", "line", "text")]
     hit("C20-unencodable-surrogate", outs == ["UnicodeEncodeError"] * 3, "exceptions %r" % (outs,))
+    # 8 the reader's dialect sniffing fails on the writer's own output: s,u CRLF z,"a,b" CRLF
+    from flow.record import RecordReader
+    U = __import__("flow.record", fromlist=["RecordDescriptor"]).RecordDescriptor("w/two", [("string", "s"), ("string", "u")])
+    data, err, en = run_writer("csvfile", p("w8.csv"), [U(s="z", u="a,b", _generated=TS)], {"fields": "s,u"})
+    try:
+        with RecordReader("csvfile://" + p("w8.csv")) as rd:
+            back = [[getattr(r, k) for k in r._desc.fields] for r in rd]
+    except Exception as e:  # noqa
+        back = type(e).__name__
+    hit("C20-reader-sniffer-misreads-writer-output", data == b's,u\r\nz,"a,b"\r\n' and back != [["z", "a,b"]], "read back %r" % (back,))
     return seen
 
 
@@ -1373,12 +1409,16 @@ def correspondence(ctx, rep, cfgname="gen_cfg", extra_import=" Gen_text", with_e
         nt, nm = normalize_cases(ctx, rep, rnd, 40 if ctx.tier == "quick" else 400)
         terms += nt
         metas += nm
+        with warnings.catch_warnings():
+            warnings.simplefilter("ignore")
+            written = list(written) + readback_files(rnd, 40 if ctx.tier == "quick" else 400, workdir)
         rt, rm, sniffed, total = read_cases(ctx, rep, rnd, 24 if ctx.tier == "quick" else 240, workdir, written)
         terms += rt
         metas += rm
-        ctx.notes.append("CSV read-back: %d of %d files had a delimiter csv.Sniffer identifies (the others are ambiguous content)" % (sniffed, total))
+        ctx.notes.append("CSV read-back: %d of %d files read back with the same text values (the others: known finding, csv.Sniffer "
+                         "misjudges the dialect)" % (sniffed, total))
         if sniffed * 2 < total:
-            ctx.violation("csv read-back check is vacuous: csv.Sniffer identified the delimiter of only %d of %d generated files" % (sniffed, total),
+            ctx.violation("csv read-back check is vacuous: only %d of %d generated files read back" % (sniffed, total),
                           dict(kind="vacuous"), no_input=True)
     header = HEADER % extra_import
     failing, err = eval_terms(ctx, header, terms, "c20")
@@ -1418,7 +1458,7 @@ def search(ctx, reason):
         try:        # python-level oracles of normalize_fieldname / CsvfileReader (no Coq needed)
             rnd = random.Random(ctx.seed)
             normalize_cases(ctx, rep, rnd, 200)
-            read_cases(ctx, rep, rnd, 24, _workdir(ctx), [])
+            read_cases(ctx, rep, rnd, 24, _workdir(ctx), readback_files(rnd, 40, _workdir(ctx)))
         except Exception as e:  # noqa
             ctx.notes.append("search (reader part) failed: %r" % (e,))
     if rep.reported:
@@ -1447,8 +1487,8 @@ def run(ctx):
         "CPython's UTF-8 encoder with the strict and surrogateescape handlers is a concrete Gallina model (utf8), validated by execution",
         "the text forms str(v), repr(v), format(v, spec) of field VALUES are inputs of the model (computed by the real field "
         "types); str.format_map's template grammar is modelled for plain names, !r/!s/!a and un-nested specs only",
-        "csv.Sniffer is an oracle: read-back cases use the delimiter it reports and are counted only when it reports the "
-        "delimiter the file was written with",
+        "CSV read-back compares with the file read in the dialect it was written in; a mismatch is attributed to the "
+        "known finding only when csv.Sniffer's guess for the first 1024 characters differs from that dialect",
         "str.isdecimal is the generated table of this interpreter's Unicode database",
         "C20_csv_layout assumes keys_agree: records with equal descriptors have the same selected field names (the slots "
         "of a record class are a function of its descriptor); the model itself (csvw_run) does not assume it",
